@@ -805,6 +805,35 @@ class Interp:
             f = self.call(self.eval(d, env), (f,))
         env.store(st.name, f)
 
+    def s_ClassDef(self, st, env):
+        # local record types without behaviour (TypedDict / NamedTuple style:
+        # annotations and constants only) are created natively
+        for b in st.body:
+            if isinstance(b, (ast.FunctionDef, ast.AsyncFunctionDef,
+                              ast.ClassDef)):
+                raise OutsideSubset(
+                    f"local class with methods (line {st.lineno})")
+        ns = dict(env.globals)
+        e = env
+        chain = []
+        while e is not None:
+            chain.append(e)
+            e = e.parent
+        for e in reversed(chain):
+            ns.update(e.vars)
+        mod = ast.Module(body=[st], type_ignores=[])
+        ast.fix_missing_locations(mod)
+        if not any(isinstance(b, ast.ImportFrom) and b.module == "__future__"
+                   for b in []):
+            # annotations in the repository are strings (PEP 563)
+            src = ast.Module(body=[ast.ImportFrom(
+                module="__future__", names=[ast.alias(name="annotations")],
+                level=0), st], type_ignores=[])
+            ast.fix_missing_locations(src)
+            mod = src
+        exec(compile(mod, f"<local class {st.name}>", "exec"), ns)  # noqa: S102
+        env.store(st.name, ns[st.name])
+
     def make_function(self, node, env):
         a = node.args
         defaults = tuple(self.eval(d, env) for d in a.defaults)
